@@ -22,18 +22,22 @@
      moment_prim_rotation_covariant : the same with the moment operator (r - C)^k about a rotated origin R C, the
         order index k rotating with D(R) as well (three-centre product; [mom_prim] of CoreBlockP).
 
-   Both follow from  Gauss/Poly3.E3_subst_orth  (the isotropic Gaussian moment functional is invariant under every
+     kinetic_prim_rotation_covariant : the same for [kin_prim] of CoreDiffP (-1/2 Laplacian on the right function):
+        kin_prim is the operator -1/2 e^{beta u^2} Lap(. e^{-beta u^2}) acting on the index b of the overlap
+        ([kin_prim_is_kinT]), and Laplacian, u.grad and |u|^2 commute with every orthogonal substitution
+        (Gauss/Poly3.kinop_subst).
+
+   All follow from  Gauss/Poly3.E3_subst_orth  (the isotropic Gaussian moment functional is invariant under every
    orthogonal substitution) through  [ovl_prim_is_E3] / [mom_prim_is_E3]:  the product over the axes of the 1-D
    factors [T1] is the 3-D functional of the product polynomial (y + PA)^a (y + PB)^b.
 
-   NOT proved here (still decided by the correspondence check harness/c12.py for general rotations): the lifting to
-   the contracted, normalised blocks of the list-level model ([RigidP.rotation_law_overlap], which needs in addition
-   that dfnorm(c) * norm_prim(l, c, alpha) does not depend on the component c, and the D-matrix re-indexed over
-   [default_comps l]); kinetic / momentum / angular-momentum primitives; the Boys-type integrals; spherical shells;
-   evaluations and densities. *)
+   Lifted to the contracted, normalised blocks of the list-level model (overlap and kinetic energy) in
+   Proofs/RotationBlockP.v.  NOT proved (still decided by the correspondence check harness/c12.py for general
+   rotations): the multipole block above the primitive level; momentum / angular-momentum primitives; the Boys-type
+   integrals; spherical shells; evaluations and densities. *)
 From Coq Require Import List Arith Lia Field.
 From GB Require Import Base.Field Base.FNum Base.Tables Gauss.Moment1D Gauss.Poly3 Model.Shell Model.MomentInt
-  Proofs.CoreBlockP Proofs.RigidP.
+  Proofs.DiffOpP Proofs.CoreBlockP Proofs.CoreDiffP Proofs.RigidP.
 Import ListNotations.
 
 Section Rot.
@@ -47,6 +51,7 @@ Infix "*" := (fmul K) : F_scope.
 Infix "-" := (fsub K) : F_scope.
 Infix "/" := (fdiv K) : F_scope.
 Notation "- x" := (fopp K x) : F_scope.
+Notation "# n" := (ofnat K n) (at level 5) : F_scope.
 
 Definition ax2nat (i : axis) : nat := match i with AX => 0 | AY => 1 | AZ => 2 end.
 Definition matf (R : @mat3 F) : axis -> axis -> F := fun i j => vget (mrow R (ax2nat i)) (ax2nat j).
@@ -236,6 +241,56 @@ Proof.
   - now apply PBf_rot.
 Qed.
 
+(* ---- kinetic energy: the Laplacian part of the operator is rotation invariant ---- *)
+(* the second x-derivative of the right function, as an operator on the index j of a 1-D table *)
+Lemma Bop2_explicit beta (T : tfun (F:=F)) i j :
+  iterop (Bop K beta) 2 T i j
+  = #(Nat.pred j) * #j * T i (Nat.pred (Nat.pred j)) - (1 + 1 + 1 + 1) * beta * #j * T i (S (Nat.pred j))
+    - (1 + 1) * beta * T i j + (1 + 1 + 1 + 1) * beta * beta * T i (S (S j)).
+Proof.
+  cbn [iterop]. unfold Bop.
+  destruct j as [|[|j]]; cbn [Nat.sub Nat.pred]; rewrite ?Nat.sub_0_r; cbn [ofnat]; ring.
+Qed.
+Lemma T3_c_irrelevant v a b c i j : T3 K v a b c 0 i j = T3 K v a b 0 0 i j.
+Proof. reflexivity. Qed.
+
+(* [kin_prim] of Proofs/CoreDiffP.v is the kinetic operator -1/2 e^{beta u^2} Lap (. e^{-beta u^2}) of
+   Gauss/Poly3.v acting on the index of the right function of the overlap *)
+Theorem kin_prim_is_kinT sa sb ca cb alpha beta :
+  kin_prim K sa sb ca cb alpha beta
+  = kinT K (1 / (1 + 1)) beta (fun b => ovl_prim K sa sb ca b alpha beta) cb.
+Proof.
+  destruct ca as [[ax ay] az]. destruct cb as [[bx by_] bz].
+  unfold kin_prim, D1. rewrite !Bop2_explicit.
+  unfold kinT, kinop, lap, euler, rsq, mono3, S1, Sfun, ovl_prim, mom_prim, KAB, T1, cx, cy, cz.
+  cbn [fst snd dv mulv map app pscale3 Jsum bump mlower expo].
+  rewrite !(T3_c_irrelevant _ _ _ (PC K _ _ _ _ _)).
+  ring.
+Qed.
+
+(* GENERAL ROTATIONS, kinetic energy of two primitives *)
+Theorem kinetic_prim_rotation_covariant R sa sb ca cb alpha beta :
+  orthogonal K R -> psum K alpha beta <> 0 ->
+  Jsum K (fun a' => Jsum K (fun b' =>
+       kin_prim K (rot_shell K R sa) (rot_shell K R sb) a' b' alpha beta)
+     (rot_expand R cb)) (rot_expand R ca)
+  = kin_prim K sa sb ca cb alpha beta.
+Proof.
+  intros HO Hp. rewrite kin_prim_is_kinT.
+  rewrite (Jsum_ext K _ (fun a' => Jsum K (fun b' =>
+             kinT K (1 / (1 + 1)) beta
+               (fun b => ovl_prim K (rot_shell K R sa) (rot_shell K R sb) a' b alpha beta) b')
+             (rot_expand R cb))).
+  2:{ intro a'. apply Jsum_ext. intro b'. apply kin_prim_is_kinT. }
+  unfold rot_expand.
+  apply (kinT_covariant K Kf (transpose (matf R)) (1 / (1 + 1)) beta
+           (fun a b => ovl_prim K sa sb a b alpha beta)
+           (fun a b => ovl_prim K (rot_shell K R sa) (rot_shell K R sb) a b alpha beta)).
+  - now apply orthogonal_cols.
+  - exact (orthogonal_rows R HO).
+  - intros a b. now apply overlap_prim_rotation_covariant.
+Qed.
+
 End Rot.
 
 (* ------------------------------------------------------------------ *)
@@ -321,6 +376,26 @@ Example overlap_rotation_not_invariant :
   Qeq_bool (ovl_prim KQ (rot_shell KQ R345 exA) (rot_shell KQ R345 exB) (2, 0, 0)%nat (1, 1, 0)%nat (q 3 2) (q 2 3))
            (ovl_prim KQ exA exB (2, 0, 0)%nat (1, 1, 0)%nat (q 3 2) (q 2 3)) = false.
 Proof. vm_compute. reflexivity. Qed.
+Definition kin_cov_check (R : @mat3 Qc) (ca cb : comp) : bool :=
+  Qeq_bool
+    (Jsum KQ (fun a' => Jsum KQ (fun b' =>
+         kin_prim KQ (rot_shell KQ R exA) (rot_shell KQ R exB) a' b' (q 3 2) (q 2 3))
+       (rot_expand KQ R cb)) (rot_expand KQ R ca))
+    (kin_prim KQ exA exB ca cb (q 3 2) (q 2 3)).
+Example kinetic_rotation_computed :
+  forallb (fun R => forallb (fun ca => forallb (fun cb => kin_cov_check R ca cb)
+     [(0, 1, 0)%nat; (1, 0, 1)%nat; (0, 0, 2)%nat]) [(1, 0, 0)%nat; (1, 1, 0)%nat])
+     [R345; Rimp] = true.
+Proof. vm_compute. reflexivity. Qed.
+Example kinetic_rotation_improper :
+  forall ca cb,
+  Jsum KQ (fun a' => Jsum KQ (fun b' =>
+       kin_prim KQ (rot_shell KQ Rimp exA) (rot_shell KQ Rimp exB) a' b' (q 3 2) (q 2 3))
+     (rot_expand KQ Rimp cb)) (rot_expand KQ Rimp ca)
+  = kin_prim KQ exA exB ca cb (q 3 2) (q 2 3).
+Proof.
+  intros. apply (kinetic_prim_rotation_covariant KQ KQf KQ_exp_hom Rimp exA exB ca cb _ _ orthogonal_Rimp ex_psum).
+Qed.
 Example moment_rotation_computed :
   forallb (fun R => forallb (fun t => mom_cov_check R (fst (fst t)) (snd (fst t)) (snd t))
      [((1, 0, 0), (0, 1, 0), (2, 0, 0))%nat; ((0, 0, 1), (1, 0, 1), (0, 1, 1))%nat;
